@@ -117,7 +117,7 @@ def _canon(p):
 def r_formula(ctx):
     res = RuleResult("R-FORMULA")
     fx = ctx.fx
-    RAW = "any_vec_raw::AnyVecRaw::<M>::"
+    RAW = "any_vec_raw::AnyVecRaw::"
 
     def arms(p):
         a = ctx.arms(p)
@@ -127,7 +127,7 @@ def r_formula(ctx):
         return a
 
     # ------------------------------------------------------------------ push
-    p = _callee_of(ctx, "any_vec::AnyVec::<Traits, M>::push", lambda f: f.get("unsafe") and _has_generic_value(f), res)
+    p = _callee_of(ctx, "any_vec::AnyVec::push", lambda f: f.get("unsafe") and _has_generic_value(f), res)
     for tt, I in arms(p) if p else []:
         row = Row(res, ctx, "push", p, tt, I)
         lp = (("P", 1), ("len",))
@@ -149,7 +149,7 @@ def r_formula(ctx):
         row.done()
 
     # ------------------------------------------------------------------ insert
-    p = _callee_of(ctx, "any_vec::AnyVec::<Traits, M>::insert", lambda f: f.get("unsafe") and _has_generic_value(f), res)
+    p = _callee_of(ctx, "any_vec::AnyVec::insert", lambda f: f.get("unsafe") and _has_generic_value(f), res)
     for tt, I in arms(p) if p else []:
         row = Row(res, ctx, "insert", p, tt, I)
         lp = (("P", 1), ("len",))
@@ -449,7 +449,7 @@ def r_formula(ctx):
     # ------------------------------------------------------------------ views
     _view_rows(res, ctx, arms)
     # ------------------------------------------------------------------ iter / iter_mut
-    for p in ("any_vec::AnyVec::<Traits, M>::iter", "any_vec::AnyVec::<Traits, M>::iter_mut"):
+    for p in ("any_vec::AnyVec::iter", "any_vec::AnyVec::iter_mut"):
         for tt, I in arms(p):
             row = Row(res, ctx, "iter-range", p, tt, I)
             rets = I.all_effects(("RETURN",))
@@ -605,8 +605,8 @@ def _no_other(row, I, allowed):
 # ---------------------------------------------------------------------------------------------------- views
 
 def _view_rows(res, ctx, arms):
-    AV = "any_vec::AnyVec::<Traits, M>::"
-    TY = "any_vec_typed::AnyVecTyped::<'a, T, M>::"
+    AV = "any_vec::AnyVec::"
+    TY = "any_vec_typed::AnyVecTyped::"
     rows = [
         (AV + "as_bytes", "bytes", "live"), (AV + "as_bytes_mut", "bytes", "live"), (AV + "spare_bytes_mut", "bytes", "spare"),
         (TY + "as_slice", "elems", "live"), (TY + "as_mut_slice", "elems", "live"), (TY + "spare_capacity_mut", "elems", "spare"),
@@ -656,7 +656,7 @@ def _view_rows(res, ctx, arms):
                 row.fail("typed view element type is %s" % v["ety"], v, "type")
             row.done()
     # set_len stores its argument and nothing else
-    for p in ("any_vec_raw::AnyVecRaw::<M>::set_len",):
+    for p in ("any_vec_raw::AnyVecRaw::set_len",):
         for tt, I in arms(p):
             row = Row(res, ctx, "set_len", p, tt, I)
             st, fl = _final_len(I)
@@ -668,7 +668,7 @@ def _view_rows(res, ctx, arms):
 # ---------------------------------------------------------------------------------------------------- capacity
 
 def _capacity_rows(res, ctx, arms):
-    RAW = "any_vec_raw::AnyVecRaw::<M>::"
+    RAW = "any_vec_raw::AnyVecRaw::"
     for p, how in ((RAW + "reserve", "expand"), (RAW + "reserve_exact", "expand_exact")):
         for tt, I in arms(p):
             row = Row(res, ctx, p.split("::")[-1], p, tt, I)
@@ -721,7 +721,7 @@ def _capacity_rows(res, ctx, arms):
 
 
 def _clone_row(res, ctx, arms):
-    p = "any_vec_raw::AnyVecRaw::<M>::clone"
+    p = "any_vec_raw::AnyVecRaw::clone"
     for tt, I in arms(p):
         row = Row(res, ctx, "clone", p, tt, I)
         L0 = as_poly(entry_len(I, I.g.entry, (("P", 1), ("len",))))
@@ -1104,7 +1104,7 @@ def _misc_rows(res, ctx, arms):
                 row.fail("the length is not zeroed before the elements are destroyed", st)
             row.done()
     # AnyVec::get_unchecked{,_mut}: the element handle points at slot `index` of this vector
-    for p in ("any_vec::AnyVec::<Traits, M>::get_unchecked", "any_vec::AnyVec::<Traits, M>::get_unchecked_mut"):
+    for p in ("any_vec::AnyVec::get_unchecked", "any_vec::AnyVec::get_unchecked_mut"):
         for tt, I in arms(p):
             row = Row(res, ctx, "element-handle", p, tt, I)
             rets = I.all_effects(("RETURN",))
@@ -1167,7 +1167,7 @@ def _misc_rows(res, ctx, arms):
                             row.fail("the source passed to the clone function (%s) is not this value's bytes (%s)" % (src, own), c, "src")
                 row.done()
     # creating / copying a lazy clone performs no clone and destroys nothing
-    for p in ("any_value::lazy_clone::LazyClone::<'a, T>::new", "<any_value::lazy_clone::LazyClone<'a, T> as core::clone::Clone>::clone", "any_value::AnyValueCloneable::lazy_clone"):
+    for p in ("any_value::lazy_clone::LazyClone::new", "<any_value::lazy_clone::LazyClone as core::clone::Clone>::clone", "any_value::AnyValueCloneable::lazy_clone"):
         for tt, I in arms(p):
             row = Row(res, ctx, "lazy-noop:" + p.split("::")[-1], p, tt, I)
             bad = I.all_effects(("CLONE", "CLONE_INTO", "DESTROY", "COPY", "USER", "MOVE_INTO", "FORGET"))
